@@ -12,11 +12,14 @@ into the sending method ("combined mode") - is still analysed; exit 2 only if no
 * _calculate_target_power over: proposal kind x stored target present/absent per group x each
   `calculate_target_power` call returning {a new target, None = unchanged}.  Every abstract path
   is checked for C11.SUM (returned power == sum of both groups' *current* targets) and C11.SHIFT
-  (the second-computed group gets the system bounds shifted by the *current* target of the first).
+  (the second-computed group gets the system bounds shifted by the *current* target of the first,
+  the first-computed group the cached system bounds themselves - never a shifted copy).
 * Matryoshka.calculate_target_power (the resolver contract that model relies on) over bucket
   absent/empty/non-empty x stored target x proposal x validation x fresh == stored x
   must_return_power: None only if the group has no bucket or the target was recomputed from (its
   bucket, the bounds argument) and equals the stored one; a returned target is fresh and stored.
+  Who-may-write (check_state_writers): the stored target is written by nothing but that method
+  (and helpers that run only as part of it), a bucket once created is never removed.
 * _calculate_shifted_bounds over shift None/present x inclusion/exclusion bounds None/present: both
   inclusion bounds minus the same power (linear terms), exclusion bounds passed through.
 * C11.REQ: who may build a Request / use the requests sender (only _send_updated_target_power and
@@ -36,8 +39,9 @@ from ..engine.normalize import ANCHOR_NAMES, inline_helpers, normalize, position
 from ..engine.report import AnalysisError, Run
 from ..engine.resolver import ClassInfo, FuncInfo, Program
 from ..engine.util import method_call, nodes_with_call, normal_edge, u
-from ._c11_util import (MATRYOSHKA, REQ_SENDER_ATTR, ActorInterp, Flag, ResolverInterp, Sym, dataclass_fields,
-                        is_shift, lin_of, opaque_for, resolve_roles, structural_controls)
+from ._c11_util import (ALGO, BUCKETS_ATTR, MATRYOSHKA, REQ_SENDER_ATTR, STORE_ATTR, ActorInterp, Flag, ResolverInterp,
+                        Sym, dataclass_fields, foreign_attr_ref, is_empty_mapping, is_shift, lin_of, mapping_uses,
+                        opaque_for, reachable_methods, resolve_roles, self_attr_ref, structural_controls)
 
 ACTOR = "microgrid._power_managing._power_managing_actor:PowerManagingActor"
 MODULE = "microgrid._power_managing._power_managing_actor"
@@ -174,12 +178,31 @@ def check_calc(run: Run, prog: Program, roles: Roles) -> None:
                   f"for the other group's current target: {why} (so target sum can leave the "
                   f"system bounds). Path: {desc}", node=second["node"], file=fn.file,
                   instance=f"second group bounds shifted by first group's current target: {desc}")
+        # the group computed FIRST gets the cached system bounds themselves: nothing has been
+        # settled in this step yet that they could be shifted by (the other group's stored target
+        # is about to be recomputed and is stale once its last proposal expired)
         b1 = first["bounds"]
-        ok1 = _is_sb(b1, ids) or (is_shift(b1) and _is_sb(b1.fields["base"], ids))
-        run.check(ok1, "C11.SHIFT", fn.qual, first["node"],
-                  "the first recalculation does not use the cached system bounds of the group",
+        if _is_sb(b1, ids):
+            ok1, why1 = True, ""
+        elif is_shift(b1) and _is_sb(b1.fields["base"], ids):
+            by1 = b1.fields["by"]
+            ok1 = by1 is None
+            other = "op" if first["group"] == "reg" else "reg"
+            what = (f"the {other} group's stored target" if by1 is second["stored_before"]
+                    else f"the {first['group']} group's own stored target"
+                    if by1 is first["stored_before"] else "a value")
+            why1 = (f"the {first['group']} group is recalculated first, within the system bounds shifted by `{by1}` "
+                    f"({what} from before this step) instead of the system bounds themselves: its target can then "
+                    f"lie outside the system bounds, the window left for the {other} group ([lower - target, "
+                    "upper - target]) no longer contains 0 W, and a group without a preferred power (no proposal "
+                    "left after an expiry) resolves to 0 W - the request regular + op leaves the latest system "
+                    "bounds.  Only the group computed second is shifted, and by the first group's current target")
+        else:
+            ok1, why1 = False, ("the first recalculation does not use the cached system bounds of the group "
+                                f"(bounds argument {b1!r})")
+        run.check(ok1, "C11.SHIFT", fn.qual, first["node"], f"{why1}. Path: {desc}",
                   node=first["node"], file=fn.file,
-                  instance=f"first group uses the cached system bounds: {desc}")
+                  instance=f"first group uses the unshifted cached system bounds: {desc}")
         run.sample({"path": desc, "returned": repr(out.value), "current_targets": sorted(expected)})
     if n_changed < 10:
         raise AnalysisError("C11.SUM: too few paths with a changed target explored")
@@ -300,7 +323,7 @@ def check_resolver(run: Run, prog: Program) -> None:
             n_none += 1
             equal = bool(calcs) and st["stored"] is inp["stored"] and inp["stored"] is not None and \
                 st["facts"].get(("eq", frozenset((inp["stored"].name, calcs[0]["result"].name)))) is True
-            ok = st["bucket"] == "absent" or (fresh_ok and equal)
+            ok = (st["bucket"] == "absent" and st["stored"] is inp["stored"]) or (fresh_ok and equal)
             test = st["last_test"]
             run.check(ok, "C11.SUM", fn.qual, test if test is not None and not ok else "None only when unchanged",
                       "the resolver answers None (= unchanged) although the group has a bucket "
@@ -367,6 +390,102 @@ def check_reported_target(run: Run, prog: Program) -> None:
                   f"the report tells the actors the target `{u(val)}`, not the group's stored target "
                   "(self._target_power.get(component_ids)) that the manager adds to the request",
                   node=call, file=gs0.file, instance=f"report target is the stored target (line {call.lineno})")
+
+
+def _recalculation_methods(prog: Program, cls: ClassInfo, root: FuncInfo, opaque: set[str]) -> set[str]:
+    """`calculate_target_power` plus the methods that run only as part of it and are interpreted with it by
+    ResolverInterp (reached from it, not opaque there, mentioned nowhere else in the package)."""
+    cands = {m.name for m in reachable_methods(prog, cls, root)[1:]
+             if m.cls is cls and m.name not in opaque and m.name not in ANCHOR_NAMES and m.name.startswith("_")
+             and not m.name.startswith("__")}
+    allowed = {root.name}
+    if not cands:
+        return allowed
+    refs = _owner_refs(prog, cands)
+    changed = True
+    while changed:
+        changed = False
+        for name in sorted(cands - allowed):
+            who = refs[name]
+            if who and all(c == cls.qual and f in allowed for c, f in who):
+                allowed.add(name)
+                changed = True
+    return allowed
+
+
+def check_state_writers(run: Run, prog: Program) -> None:
+    """Who may write the resolver's state.  The stored target of a group is at once (a) what get_status reports
+    to the actors, (b) what the manager adds to the request and shifts the other group by, and (c) the baseline of
+    calculate_target_power's "unchanged -> None" answer.  The resolver clause (check_resolver) shows that
+    calculate_target_power stores exactly the fresh target it returns - so every change of the store is followed
+    by a request for the new sum.  That argument needs the store to have no other writer, and the "no bucket ->
+    None" case needs a bucket, once created, never to be removed."""
+    cls = prog.cls(MATRYOSHKA)
+    root = prog.func(f"{MATRYOSHKA}.calculate_target_power")
+    opaque = set(ResolverInterp(prog, cls).opaque)
+    allowed = _recalculation_methods(prog, cls, root, opaque)
+    reach_names = {m.name for m in reachable_methods(prog, cls, root)[1:]}
+    algo = prog.cls(ALGO)
+    classes = {c.qual: c for c in [*prog.mro(cls), *prog.subclasses(algo, strict=False)]}
+    n_seen = 0
+    for c in classes.values():
+        for m in c.methods.values():
+            if c is cls and m.name in allowed:
+                continue  # interpreted path by path (check_resolver)
+            n_seen += 1
+            bad = 0
+            for use in mapping_uses(m.node, self_attr_ref(STORE_ATTR)):
+                kind, node = use["kind"], use["node"]
+                if kind == "read":
+                    continue
+                if kind == "rebind" and m.name == "__init__" and is_empty_mapping(use.get("value")):
+                    continue
+                if kind == "escape":
+                    raise AnalysisError(f"{m.qual}: the stored-target mapping self.{STORE_ATTR} leaves the method "
+                                        f"({use['how']}, line {getattr(node, 'lineno', '?')}): its writers cannot be "
+                                        "enumerated")
+                bad += 1
+                shared = c is cls and m.name in reach_names
+                run.violation(
+                    "C11.SUM", m.qual, node,
+                    f"{m.name} changes a group's stored target ({use['how']}) outside {root.name}"
+                    + (f" (it is reached from {root.name} but also used elsewhere / not interpreted with it)"
+                       if shared else "") + ": the stored "
+                    "target is what get_status reports, what the manager adds to the request (and shifts the other "
+                    "group by) and the baseline of the resolver's `unchanged -> None` answer.  Only "
+                    f"{root.name} may write it - with the fresh target it returns, so that a request for the new "
+                    "sum follows.  A reset / removal / overwrite anywhere else (when proposals expire, while "
+                    "reporting, on a read) changes the reported target without a request, and the next "
+                    "recalculation compares against a value that was never requested: it computes the same value, "
+                    "answers None, and the old sum keeps being distributed while the reports say otherwise",
+                    node=node, file=m.file)
+            if bad == 0:
+                run.ok("C11.SUM", f"{m.qual} :: no write of self.{STORE_ATTR} outside {root.name}")
+            for use in mapping_uses(m.node, self_attr_ref(BUCKETS_ATTR)):
+                kind, node = use["kind"], use["node"]
+                gone = kind == "remove" or (kind == "rebind" and not (
+                    m.name == "__init__" and is_empty_mapping(use.get("value"))))
+                if gone:
+                    run.violation(
+                        "C11.SUM", m.qual, node,
+                        f"{m.name} removes a group's bucket ({use['how']}): {root.name} answers None (= unchanged) "
+                        "for a group without a bucket, so after the removal the group's stored target is never "
+                        "recomputed again - it keeps being reported and added to the request whatever the "
+                        "bounds become (expired proposals must leave an *empty* bucket, which is recomputed to 0 W)",
+                        node=node, file=m.file)
+    # the state of a group written from outside the resolver (the manager, another module of the package)
+    pkg = MODULE.rsplit(".", 1)[0]
+    for mod in prog.modules.values():
+        if not (mod.name == pkg or mod.name.startswith(pkg + ".")):
+            continue
+        for use in mapping_uses(mod.tree, foreign_attr_ref(STORE_ATTR)):
+            if use["kind"] in ("set", "remove", "rebind"):
+                run.violation("C11.SUM", mod.name, use["node"],
+                              f"a group's stored target is written from outside the resolver ({use['how']}): only "
+                              f"{root.name} may change it (with the fresh target it returns, so that a request "
+                              "follows)", node=use["node"], file=mod.rel)
+    if n_seen < 3:
+        raise AnalysisError(f"{cls.qual}: only {n_seen} methods besides the recalculation examined")
 
 
 def _is_stored_target(e: ast.AST, ids: str) -> bool:
@@ -726,6 +845,17 @@ CONTROLS = [
     ("report target is not the stored target", "microgrid._power_managing._matryoshka",
      "            target_power=target_power,\n            _inclusion_bounds=timeseries.Bounds",
      "            target_power=None,\n            _inclusion_bounds=timeseries.Bounds", "C11.REQ"),
+    ("first group computed in shifted bounds", "microgrid._power_managing._power_managing_actor",
+     "                    proposal,\n                    self._system_bounds[component_ids],\n                    must_send,\n"
+     "                )\n                tgt_power_shift = self._set_op_power_group.calculate_target_power(",
+     "                    proposal,\n                    self._calculate_shifted_bounds(self._system_bounds[component_ids], "
+     "self._set_op_power_group.get_target_power(component_ids)),\n                    must_send,\n"
+     "                )\n                tgt_power_shift = self._set_op_power_group.calculate_target_power(",
+     "C11.SHIFT"),
+    ("stored target reset when proposals expire", "microgrid._power_managing._matryoshka",
+     "            for proposal in to_delete:\n                bucket.remove(proposal)\n",
+     "            for proposal in to_delete:\n                bucket.remove(proposal)\n"
+     "            if not bucket:\n                self._target_power.clear()\n", "C11.SUM"),
 ]
 
 
@@ -734,14 +864,18 @@ def run_rules(run: Run, prog: Program) -> None:
     check_calc(run, prog, roles)
     check_resolver(run, prog)
     check_reported_target(run, prog)
+    check_state_writers(run, prog)
     check_shift_fn(run, prog, roles)
     check_req(run, prog, roles)
 
 
 def check(run: Run, prog: Program, tier: str) -> str:
     run.rule("C11.SUM", "on every abstract path of _calculate_target_power the returned power is the "
-             "sum of both groups' current targets (new result or, when unchanged, the stored one)")
-    run.rule("C11.SHIFT", "the second-computed group is bounded by the system bounds shifted by the "
+             "sum of both groups' current targets (new result or, when unchanged, the stored one); a group's "
+             "stored target is written only by calculate_target_power (the fresh target it returns), buckets "
+             "are never removed")
+    run.rule("C11.SHIFT", "the first-computed group is bounded by the unshifted cached system bounds, the "
+             "second-computed group by the system bounds shifted by the "
              "first group's current target; _calculate_shifted_bounds shifts both inclusion "
              "bounds alike and passes exclusion bounds through")
     run.rule("C11.REQ", "requests are built only from that result; new bounds are stored before "
